@@ -30,7 +30,7 @@ FAULT_KINDS = ["entropy_zero", "entropy_ones", "entropy_multiple_of_n", "entropy
                "prod_blinding_overwritten"]
 PROBES = ["verify_reached_infinity", "add_P_plus_minusP", "add_P_plus_P", "add_with_infinity", "mul_k_multiple_of_n",
           "mul_negative_k", "mul_k_ge_n", "sign_first_nonce_rejected", "r_ge_n_rejected", "s_ge_n_rejected",
-          "malleated_s_accepted", "recover_signer_found", "nonce_x_ge_n", "lift_no_point", "ecdh", "keysign",
+          "malleated_s_accepted", "recover_signer_found", "nonce_x_ge_n", "lift_no_point", "ecdh", "keysign", "keyverify_forged_der",
           "replicas>=3", "pure_replica_on_256bit", "openssl_replica", "libsecp256k1_replica"]
 
 NIDS = {"secp256k1": 714, "secp256r1": 415}
@@ -188,7 +188,8 @@ def gen_plan(rng, tier, index, config=None):
             steps.append({"op": "sign", "d": d, "z": z})
         elif op == "keysign":
             d = r.between(1, n - 1)
-            steps.append({"op": "keysign", "d": d, "h": r.bytes(32).hex(), "other": r.between(1, n - 1)})
+            steps.append({"op": "keysign", "d": d, "h": r.bytes(32).hex(), "other": r.between(1, n - 1),
+                          "forge": r.sample(["flip_s", "r_plus_n", "s_plus_n", "r_zero", "s_zero", "r_n", "s_n", "swap", "s_plus_1"], 3)})
         elif op in ("verify", "recover"):
             if signed and r.chance(0.6):
                 d, z, sr, ss, R = r.pick(signed)
@@ -644,6 +645,35 @@ def _op_keysign(ctx, C, reps, st, hist_r, cfg):
         if (ok_self, ok_pub, ok_other, ok_otherh) != (True, True, exp_other, False):
             ctx.violate("C01", "key-verify-wrong", {"replica": rid, "self": ok_self, "pub": ok_pub, "other_key": ok_other,
                                                     "other_hash": ok_otherh})
+        # well-formed DER carrying other integer pairs: the wrapper must answer what the verification rule says
+        if rs is None:
+            continue
+        Q = C.mul(d, C.G)
+        r0, s0 = rs
+        for kind in st.get("forge") or []:
+            pr = {"flip_s": (r0, C.n - s0), "r_plus_n": (r0 + C.n, s0), "s_plus_n": (r0, s0 + C.n), "r_zero": (0, s0), "s_zero": (r0, 0),
+                  "r_n": (C.n, s0), "s_n": (r0, C.n), "swap": (s0, r0), "s_plus_1": (r0, s0 + 1)}[kind]
+            try:
+                got = key.verify(h, _der(*pr))
+            except Exception as e:
+                ctx.violate("C01", "key-sign-verify-raised", {"replica": rid, "exc": type(e).__name__, "msg": str(e)[:120], "forged": kind})
+                continue
+            exp = C.verify(Q, z, pr[0], pr[1])
+            ctx.probe("keyverify_forged_der")
+            if bool(got) != exp:
+                ctx.violate("C01", "key-verify-wrong", {"replica": rid, "forged": kind, "got": bool(got), "expected": exp})
+
+
+def _der_int(v):
+    b = v.to_bytes((v.bit_length() + 8) // 8 or 1, "big")   # always a leading sign bit of 0
+    while len(b) > 1 and b[0] == 0 and not (b[1] & 0x80):
+        b = b[1:]
+    return b"\x02" + bytes([len(b)]) + b
+
+
+def _der(r, s):
+    body = _der_int(r) + _der_int(s)
+    return b"\x30" + bytes([len(body)]) + body
 
 
 def _parse_der(der):
